@@ -4,7 +4,7 @@ harness_errors, counters, samples, distinct). A tool that cannot be built or run
 never a violation; a tool report is a violation."""
 import json, os, re, subprocess, time
 
-HARNESS = "/verif/harness"
+HARNESS = os.path.join(os.path.dirname(os.path.dirname(os.path.abspath(__file__))), "harness")
 
 
 def _env(extra=None):
@@ -159,7 +159,7 @@ def valgrind(ctx):
 def miri(ctx):
     """C14 under Miri with many seeds (distinct schedules): data races, UB, uninitialised reads in the pure
     Rust part of the library (Miri cannot cross the C FFI of zstd or of the compressor crates)"""
-    mdir = "/verif/miri"
+    mdir = os.path.join(ctx["verif"], "miri")
     t = time.time()
     out, rc, seeds = "", 0, 0
     # (input, seeds): the dictionary-using input costs minutes per seed under Miri, the Huffman-only one seconds
